@@ -61,11 +61,14 @@ func c18Build(cs c18Case) c18File {
 		for n := 0; n < bigAnc; n += 50000 {
 			anc = append(anc, imggen.PNGChunk{Type: "zTXt", Data: append([]byte("k\x00\x00"), rng.Bytes(50000)...)})
 		}
+		if cs.Variant == "bigchunk" { // one chunk of 700 KiB, then a small one
+			anc = []imggen.PNGChunk{{Type: "tEXt", Data: append([]byte("k\x00"), rng.Bytes(700<<10)...)}, {Type: "tIME", Data: []byte{0x07, 0xe8, 2, 29, 12, 34, 56}}}
+		}
 		switch cs.Placement {
 		case "after-ancillary":
 			s.Pre = anc
 		case "none":
-			if cs.Variant == "ancillary" {
+			if cs.Variant == "ancillary" || cs.Variant == "bigchunk" {
 				s.Pre = anc
 			}
 		case "after-header":
@@ -318,6 +321,9 @@ func c18Cases(seed int64, thorough bool) []c18Case {
 	for _, n := range iccSizes {
 		add("PNG", "plain", "after-ancillary", n)
 	}
+	add("PNG", "bigchunk", "none", 0)
+	add("PNG", "bigchunk", "after-ancillary", 500)
+	add("PNG", "bigchunk", "after-ancillary", 100<<10)
 	add("JPEG", "dnl", "none", 0)
 	add("JPEG", "dnl", "after-header", 500)
 	for _, v := range []string{"baseline", "progressive"} {
